@@ -73,25 +73,27 @@ def transform_cases(nmax):
 
 
 def late_start_cases():
-    for starts in itertools.product((0, 2, 5), repeat=2):
-        if 0 not in starts:
-            continue  # a generator none of whose markets starts at 0 is outside the property (and outside what the runner builds)
-        for vols in ((0.0, 0.0), (0.25, 0.0), (0.0, 0.25), (0.25, 0.25)):
-            for chunk in (3, 100):
-                yield (starts, vols, chunk)
+    for n in (2, 3):
+        for starts in itertools.product((0, 2, 5), repeat=n):
+            if 0 not in starts:
+                continue  # a generator none of whose markets starts at 0 is outside the property (and outside what the runner builds)
+            # n = 3 covers every registration order of two different late starts (later one first and last)
+            for vols in itertools.product((0.0, 0.25), repeat=n):
+                for chunk in (3, 100):
+                    yield (starts, vols, chunk)
 
 
 def late_start_fn(case, wit):
     """markets registered with a later start: the initial value holds up to the start, the walk begins there"""
     starts, vols, chunk = case
-    drifts = (2.0 ** -7, -2.0 ** -6)
+    drifts = (2.0 ** -7, -2.0 ** -6, 2.0 ** -5)
     f = Fundamentals(prng=random.Random(0))
     f._generate_chunk_size = chunk
     f._np_prng = Stub(lambda size, n: np.zeros(size))
-    for i in range(2):
+    for i in range(len(starts)):
         f.add_market(i, 100.0 + 50 * i, drifts[i], vols[i], start_at=starts[i])
     T = 9
-    for i in range(2):
+    for i in range(len(starts)):
         for t in list(range(T + 1)) + [T, 3, 0]:
             got = f.get_fundamental_price(i, t)
             want = (100.0 + 50 * i) * math.exp(drifts[i] * max(0, t - starts[i]))
